@@ -68,6 +68,42 @@ def run_case(ctx, f, batch0, keys, fail, same_a=False):
     return outs[0], trace, ns, ev, prev, given
 
 
+def cow_case(ctx, f, keys, fail):
+    """Class route on a subclass that only inherits the Event parameter: the first class-level assignment of `e` makes the
+    metaclass install a per-class COPY of the Parameter (copied with whatever mode it is in at that moment), and from then
+    on the namespace lookup yields the copy.  Returns (outcome, the inherited Parameter, the copy or None)."""
+    ev = Obj("inherited_event_param", _autotrigger_value=True, _autotrigger_reset_value=False, _mode="set-reset")
+    known = {"a": Obj("param_a"), "e": ev}
+    prev = {"a": Obj("old_a"), "e": False}
+    given = dict((k, Obj("new_" + k) if k != "e" else True) for k in keys)
+    target = Obj("SubClass")
+    ns = Obj("ns", _BATCH_WATCH=False, self_or_cls=target, self=None, cls=Obj("Cls", __name__="Cls"), __getitem__=known, __contains__=list(known), __iter__=list(known))
+    box = {}
+
+    def hook(fn, args, kwargs):
+        if fn == "hasattr" and len(args) == 2:
+            return isinstance(args[0], Obj) and args[1] in args[0].attrs
+        if fn == "self_.values":
+            return dict(prev)
+        if fn == "setattr" and len(args) == 3:
+            if fail and args[1] == fail and args[2] is not False:
+                raise _Raise("ValueError")
+            if args[1] == "e" and "copy" not in box:
+                box["copy"] = Obj("per_class_copy_of_event_param", **dict(ev.attrs))
+                known["e"] = box["copy"]
+            return None
+        if fn == "Comparator.is_equal" and len(args) == 2:
+            return args[0] is args[1]
+        if fn == "self_._batch_call_watchers":
+            return None
+        return NotImplemented
+    it = Interp(ctx.hier, dyn=P + "Parameters", inline=lambda m: True, call_hook=hook, globals={"Undefined": Obj("Undefined")})
+    outs = it.run_all(f, {"self_": ns, "arg": it.globals["Undefined"], "kwargs": dict(given)})
+    if len(outs) != 1 or outs[0].imprecise:
+        raise AnalysisError("update model: Parameters._update is not interpretable precisely on the copy-on-write case (%s)" % (outs[0].notes[:2] if outs else "no outcome"))
+    return outs[0], ev, box.get("copy")
+
+
 def update_model(ctx):
     f = ctx.repo.func(P + "Parameters._update")
     problems = {"C04": [], "C05": [], "C02": [], "C03": [], "C01": [], "C09": []}
@@ -124,11 +160,14 @@ def update_model(ctx):
                     if ev.attrs["_mode"] != "set-reset":
                         problems["C05"].append("%s: the Event parameter is left in mode %r (it no longer resets itself)" % (desc, ev.attrs["_mode"]))
                     resets = [t for t in sets if t[1] == "e" and t[3] == "mode=reset"]
-                    if len(resets) != 1:
+                    e_assigned = any(t[1] == "e" for t in main_sets)
+                    # an Event key that was never assigned (a key before it was rejected) still holds its resting value: writing the
+                    # reset value again is allowed, not required -- what is required is that its mode ends 'set-reset' (checked above)
+                    if len(resets) != 1 and not (not e_assigned and len(resets) == 0):
                         problems["C05"].append("%s: the Event parameter is reset %d time(s)" % (desc, len(resets)))
                         problems["C04"].append("%s: the Event parameter is reset %d time(s): it stays set after the update, so its next firing is an unchanged "
                                                "assignment that changes-only watchers never see" % (desc, len(resets)))
-                    elif flushes and trace.index(resets[0]) < trace.index(flushes[0]):
+                    elif resets and flushes and trace.index(resets[0]) < trace.index(flushes[0]):
                         problems["C04"].append("%s: the Event parameter is reset before the flush delivered its event" % desc)
                     e_sets = [t for t in main_sets if t[1] == "e"]
                     if any(t[3] != "mode=set" for t in e_sets):
@@ -145,6 +184,20 @@ def update_model(ctx):
                     got = o.value if isinstance(o.value, dict) else None
                     if got is None or set(got) != set(want) or any(got[k] is not want[k] for k in want):
                         problems["C04"].append("%s: the returned previous values are %s, specification: the old value of every key given" % (desc, sorted(got) if got is not None else o.value))
+    # class route, Event inherited: the Parameter whose mode was switched is not the one found afterwards
+    for keys, fail in ((["e"], None), (["a", "e"], None), (["e", "a"], "a")):
+        try:
+            o, ev, cp = cow_case(ctx, f, keys, fail)
+        except Unsupported as e:
+            raise AnalysisError("update model: absint cannot interpret Parameters._update: %s" % e)
+        n += 1
+        desc = "class-level update(%s)%s on a subclass that inherits the Event parameter (its first assignment installs a per-class copy)" % (", ".join(keys), " with `a` rejected" if fail else "")
+        for who, pobj in (("the ancestor's Event parameter", ev), ("the per-class copy", cp)):
+            if pobj is not None and pobj.attrs.get("_mode") != "set-reset":
+                msg = "%s: %s is left in mode %r: it no longer resets itself -- assigning it on the ancestor class or its instances leaves it set, and the next firing is an unchanged assignment" % (
+                    desc, who, pobj.attrs.get("_mode"))
+                problems["C05"].append(msg)
+                problems["C04"].append(msg)
     return n, problems
 
 
